@@ -129,6 +129,7 @@ def run_case(case, seed):
                     r.true(key + ':isometry', is_left_orth(T.cores[i]), 'core %d not left-orthonormal' % i)
     pairs = [(None, None)] + [(s, e) for s in range(d - 1, 0, -1) for e in range(s, 0, -1)]
     pairs += [(np.int32(s), np.int64(e)) for s, e in pairs[1:]]        # NumPy integers pass ortho_right's own validation
+    pairs += [(0, 1)]                                                  # explicit start 0 with the default end 1: an empty sweep, nothing may change
     for s, e in pairs:
         T = tt_from(cores0); before = snap(T)
         key = 'ortho_right' + ('' if s is None else ':partial')
